@@ -92,4 +92,34 @@ theorem skel_readynessCheck_ok : skel_readynessCheck = ([
   "return",
   "next.ServeHTTP"] : List String) := rfl
 
+theorem skel_storedSessionLoader_refreshSessionIfNeeded_ok : skel_storedSessionLoader_refreshSessionIfNeeded = ([
+  "if !needsRefresh(s.refreshPeriod, session)",
+  "needsRefresh",
+  "return nil",
+  "defer",
+  "for !lockObtained",
+  "return errors.New(\"timeout obtaining session lock\")",
+  "session.ObtainLock",
+  "if err != nil && !errors.Is(err, sessionsapi.ErrLockNotObtained)",
+  "return fmt.Errorf(\"error occurred while trying to obtain lock: %v\",",
+  "if errors.Is(err, sessionsapi.ErrLockNotObtained)",
+  "defer",
+  "func{",
+  "if session == nil",
+  "return",
+  "if err != nil",
+  "session.ReleaseLock",
+  "s.store.Load",
+  "if err != nil",
+  "return fmt.Errorf(\"could not load session: %v\", err)",
+  "if freshSession == nil",
+  "return errors.New(\"session no longer exists, it may have been remov",
+  "if !needsRefresh(s.refreshPeriod, session)",
+  "needsRefresh",
+  "return nil",
+  "if err != nil",
+  "s.refreshSession",
+  "return s.validateSession(req.Context(), session)",
+  "s.validateSession"] : List String) := rfl
+
 end O2P.Expect.C13
